@@ -598,13 +598,21 @@ func runParent(p *Prop, tier string, seed int64) int {
 	if len(m.Samples) == 0 {
 		cov["samples"] = []interface{}{"(no sample recorded)"}
 	}
+	assumptions := p.Assumptions
+	if assumptions == nil {
+		assumptions = []string{}
+	}
+	if m.Caps == nil {
+		m.Caps = []string{}
+		cov["caps_hit"] = m.Caps
+	}
 	ev := map[string]interface{}{
 		"property_id": p.ID,
 		"tier":        tier,
 		"seed":        seed,
 		"level":       p.Level,
 		"coverage":    cov,
-		"assumptions": p.Assumptions,
+		"assumptions": assumptions,
 		"wall_s":      wall,
 		"violations":  len(vlines),
 	}
